@@ -1394,7 +1394,7 @@ pub fn run(prop: &'static str, tier: Tier) -> ! {
             extra.put("abstract_entry_files", files.len());
             // quick: the full entry product with <= 1 non-default encoding choice, every 5th entry with <= 2
             fam("entry product x encodings (<= 1 choice)", gen_family(&files, 1, &proto, "generated: list-entry product x valid encodings"), &mut all);
-            let sub: Vec<RFile> = files.iter().step_by(tier.pick(8, 1)).cloned().collect();
+            let sub: Vec<RFile> = files.iter().step_by(tier.pick(16, 1)).cloned().collect();
             fam("entry product x encodings (<= 2 choices)", gen_family(&sub, 2, &proto, "generated: list-entry product x valid encodings (two choices)"), &mut all);
             let msgs = message_space();
             extra.put("abstract_message_files", msgs.len());
